@@ -1031,7 +1031,7 @@ def check_C09(H):
             bound = math.sqrt(d.p * d.tol)
             worst = max(W.set_distance(s, x) for s in sets)
             H.c09_maxratio = max(getattr(H, 'c09_maxratio', 0.0), worst / bound if bound > 0 else 0.0)
-            if worst > bound * (1 + 1e-9) + 8 * EPS * max(1.0, float(np.max(np.abs(x)))):
+            if worst > bound * (1 + 1e-9) + 16 * EPS * max(1.0, float(np.max(np.abs(x))), float(np.max(np.abs(d.xin)))) * d.p:
                 out.append(V('C09', 'outside_tolerance', c.site, 'evaluation %d is %.3e from a constraint set; sqrt(p*tol)=%.3e (p=%d, tol=%g, sweeps=%d)' % (c.k, worst, bound, d.p, d.tol, d.sweeps)))
         else:
             stats['c09.hit_sweep_cap'] = stats.get('c09.hit_sweep_cap', 0) + 1
